@@ -131,11 +131,11 @@ Definition content_eqb (a b : content) : bool :=
 
 (* a case: defaults table, the content of the saved model, whether the implementation loaded the document, and the
    observation of the model it built (handles = positions in the lists of the model) *)
-Definition load_check (c : list (string * list (string * Z)) * content * bool * jv) : bool :=
-  let '(tbl, cont, impl_ok, obs) := c in
-  let d := defaults_of tbl in
+Definition load_check_with (d : string -> list (string * Z)) (cont : content) (impl_ok : bool) (obs : jv) : bool :=
   match load d cont with
   | (s, MOk) => impl_ok && jv_eqb (obs_mstate s) obs
                 && (if loadable d cont then content_eqb (content_of d (c_name cont) s) cont else true)
   | (_, _) => negb impl_ok && negb (loadable d cont)
   end.
+Definition load_check (c : list (string * list (string * Z)) * content * bool * jv) : bool :=
+  let '(tbl, cont, impl_ok, obs) := c in load_check_with (defaults_of tbl) cont impl_ok obs.
